@@ -6,8 +6,8 @@ for b in "$@"; do
   git merge --no-edit "$b" >/tmp/merge_$b.log 2>&1
   for f in $(git diff --name-only --diff-filter=U); do
     case $f in
-      known_findings.json|MANIFEST.json|evidence/*|seeded/*|lean/CTM/Generated/*) git checkout --ours "$f"; git add "$f";;
-      *) echo "UNRESOLVED $f in $b";;
+      known_findings.json|MANIFEST.json|evidence/*|seeded/*|equiv/*|irrelevant/*|lean/CTM/Generated/*) git checkout --ours "$f"; git add "$f";;
+      *) echo "UNRESOLVED $f in $b"; unresolved=1;;
     esac
   done
   python3 tools/gen_manifest.py >/dev/null
